@@ -16,7 +16,7 @@ Line-protocol handlers for C10 (driver `gm_c10`).
       the model runs with `enoughFuel` (2·events+1)
   jacocotok <hexbytes>    -> the events `Jacoco.Bytes.events` reads from the bytes, in the <ev> encoding
                              above, blank-separated (`-` for none); an attribute syntax error is the
-                             pair `=`,`=` (two attributes with empty key and value)
+                             marker `=` (one attribute with empty key and value)
   jacocobytes <hexbytes>  -> `Jacoco.Bytes.parseBytes` in the answer format of `jacoco`
   unescape <hex>          -> some <hex> | none
   parsenum <32|64> <hex>  -> some <n> | none
